@@ -13,7 +13,7 @@ def real_compile(text, debug=None):
         debug_filename = bool(debug and debug.get('filename'))
         debug_parser = bool(debug and debug.get('parser'))
         debug_generator = bool(debug and debug.get('generator'))
-        current_source_file = 'input.prolog'
+        current_source_file = (debug or {}).get('source_file', 'input.prolog')
         outf = io.StringIO()
     try:
         code = C.compile_prolog_from_string(text, Ctx)
